@@ -193,6 +193,10 @@ func (p *PsUnpacker) FeedRtpBody(rtpBody []byte, rtpts uint32) error {
 	for p.buf.Len() != 0 {
 		rb := p.buf.Bytes()
 		i := 0
+		if len(rb) < 4 {
+			// start code不完整，等待后续数据
+			return nil
+		}
 		code := bele.BeUint32(rb[i:])
 		i += 4
 
@@ -300,6 +304,9 @@ func (p *PsUnpacker) parsePsm(rb []byte, index int) int {
 	}
 
 	for esml > 0 {
+		if len(rb[i:]) < 4 {
+			return -1
+		}
 		streamType := rb[i]
 		i += 1
 		streamId := rb[i]
@@ -332,10 +339,16 @@ func (p *PsUnpacker) parsePsm(rb []byte, index int) int {
 		}
 		esil := int(bele.BeUint16(rb[i:]))
 		//nazalog.Debugf("streamType=%d, streamId=%d, esil=%d", streamType, streamId, esil)
+		if len(rb[i:]) < 2+esil {
+			return -1
+		}
 		i += 2 + esil
 		esml = esml - 4 - esil
 	}
 	// skip
+	if len(rb[i:]) < 4 {
+		return -1
+	}
 	i += 4
 
 	return i - index
@@ -344,6 +357,9 @@ func (p *PsUnpacker) parsePsm(rb []byte, index int) int {
 func (p *PsUnpacker) parseAvStream(code int, rtpts uint32, rb []byte, index int) int {
 	i := index
 
+	if len(rb[i:]) < 2 {
+		return -1
+	}
 	// 注意，由于length是两字节，所以存在一个帧分成多个pes包的情况
 	length := int(bele.BeUint16(rb[i:]))
 	if length == 65535 {
@@ -356,19 +372,27 @@ func (p *PsUnpacker) parseAvStream(code int, rtpts uint32, rb []byte, index int)
 	if len(rb)-i < length {
 		return -1
 	}
+	if length < 3 {
+		// 非法的pes包，连固定的3字节头都放不下，跳过
+		return 2 + length
+	}
 
 	ptsDtsFlag := rb[i+1] >> 6
 	phdl := int(rb[i+2]) // pes header data length
 	i += 3
+	if 3+phdl > length {
+		// 非法的pes包，头部长度超过了整个包的长度，跳过
+		return 2 + length
+	}
 
 	var pts int64 = -1
 	var dts int64 = -1
 	j := 0
-	if ptsDtsFlag&0x2 != 0 {
+	if ptsDtsFlag&0x2 != 0 && phdl >= 5 {
 		_, pts = readPts(rb[i:])
 		j += 5
 	}
-	if ptsDtsFlag&0x1 != 0 {
+	if ptsDtsFlag&0x1 != 0 && phdl >= j+5 {
 		_, dts = readPts(rb[i+j:])
 	} else {
 		dts = pts
@@ -554,6 +578,10 @@ func (p *PsUnpacker) onAvPacketWrap(packet *base.AvPacket) {
 	p.onAvPacketWrapCount++
 	//nazalog.Debugf("PsUnpacker > onAvPacketWrap. packet=%s", packet.DebugString())
 	if packet.IsVideo() {
+		if len(packet.Payload) < 5 {
+			// start code后面没有数据
+			return
+		}
 		typ := h2645.ParseNaluType(packet.PayloadType == base.AvPacketPtAvc, packet.Payload[4])
 		//nazalog.Debugf("PsUnpacker onAvPacketWrap. type=%d", typ)
 		// TODO(chef): [opt] 等待sps等信息再开始回调，这个逻辑不完整简化了 202209
